@@ -124,7 +124,8 @@ def check(pid, P, tier, seed):
         for u in units:
             futs[ex.submit(verus.run, u, False, None, None, workdir)] = ("main", u)
             if want_canary:
-                futs[ex.submit(verus.run, u, True, None, None, workdir)] = ("canary", u)
+                # a twin that fails by exhausting a small resource limit still fails; a vacuous one verifies at once
+                futs[ex.submit(verus.run, u, True, None, (None if tier == "thorough" else 1), workdir)] = ("canary", u)
         nat_fut = None
         standins = [s for s in P.get("standin", []) if tier == "thorough" or s.get("quick", True)]
         if standins:
@@ -135,6 +136,7 @@ def check(pid, P, tier, seed):
         nat = nat_fut.result() if nat_fut else None
 
     undecided, violations, known_hits = [], [], []
+    fallback = []
     obligations, discharged = [], []
     per_ob = {}
     func_list = []
@@ -150,6 +152,11 @@ def check(pid, P, tier, seed):
             for ob in want:
                 obligations.append(ob)
                 per_ob[ob] = {"status": "undecided:" + r.status}
+            # the verifier could not be run on the current text: fall back to a bounded search for a
+            # concrete input on which the real code violates one of the unit's contracts
+            for ob in want:
+                if ob in P.get("cex", {}):
+                    fallback.append(ob)
             continue
         rule_log += ["%s/%s" % (u, l) for l in r.log]
         for a in r.assumption_scan:
@@ -177,11 +184,11 @@ def check(pid, P, tier, seed):
                         discharged.append(ob)
                         per_ob[ob] = {"status": "discharged-on-retry"}
                         continue
-                    if ext is None or not base["obligations"]:
-                        undecided.append("obligation %s fails on unchanged source (no baseline / preamble lemma): %s" % (ob, "; ".join(m["msg"] for m in msgs)))
-                        per_ob[ob] = {"status": "undecided:unstable"}
-                        continue
-                    # unchanged source, in baseline, fails twice: a defect present in the pinned tree
+                    # unchanged source (it verified when the baseline was recorded) and the proof fails twice:
+                    # solver / tool instability, not a property violation
+                    undecided.append("obligation %s fails on unchanged source: %s" % (ob, "; ".join(m["msg"] for m in msgs)))
+                    per_ob[ob] = {"status": "undecided:unstable"}
+                    continue
                 violations.append({"obligation": ob, "unit": u, "messages": msgs, "result": r, "extract": ext})
                 per_ob[ob] = {"status": "FAILED", "messages": [m["msg"] for m in msgs]}
             else:
@@ -228,8 +235,23 @@ def check(pid, P, tier, seed):
         rp = write_replay(pid, ob, v, cex)
         n_viol += 1
         out_lines.append("VIOLATION property=%s replay=%s%s" % (pid, rp, "" if cex and cex.get("case") is not None else " no-failing-input-found"))
+    done_oracles = set(b["name"] for b in bounded)
+    for ob in fallback:
+        oracle = P["cex"][ob]
+        if oracle in done_oracles:
+            continue
+        done_oracles.add(oracle)
+        cex = native.search_counterexample(ob, P)
+        if cex and cex.get("case") is not None:
+            kf = [k for k in known if k.get("case") and str(cex["case"].get("case_id", "")).startswith(k["case"])]
+            if kf:
+                known_hits.append(kf[0])
+                continue
+            rp = write_replay(pid, ob, None, cex)
+            n_viol += 1
+            out_lines.append("VIOLATION property=%s replay=%s" % (pid, rp))
     for s, fl in nat_viol:
-        kf = [k for k in known if k.get("case") == fl.get("case_id")]
+        kf = [k for k in known if k.get("case") and str(fl.get("case_id", "")).startswith(k["case"])]
         if kf:
             known_hits.append(kf[0])
             continue
